@@ -94,7 +94,7 @@ let predict (f : (string * string) list) : (pred, string) result =
             let arr = List.init n (fun i -> InflArrive (nat_of_int (base + i))) in
             (match infl_run lim st arr with
              | Some (st1, outs) ->
-               let flags = List.filter_map (fun o -> match o with InflRefused _ -> Some true | InflAdmitted _ -> Some false | _ -> None) outs in
+               let flags = List.filter_map (fun o -> match o with InflRefused _ -> Some true | InflAccepted _ -> Some false | _ -> None) outs in
                let fin = List.map (fun q -> InflFinish q) st1.infl_fl in
                (match infl_run lim st1 fin with
                 | Some (st2, _) -> go st2 (base + n) rest (List.rev_append flags acc)
